@@ -6,8 +6,10 @@ contexts."
 Everything is stated for ALL histories: lists of `Inv` of any length, every invocation
 being Run, RunCode or Call, ending normally, with a runtime error at any depth, with a
 recovered Go panic, with a frame-stack overflow or by cancellation of its own context,
-with any placement of `cancel(ctx_i)` of earlier contexts before (`pre`) or during
-(`during`) each later invocation.  `pairs h` lists, for every invocation of `h`, the
+with any placement of `cancel(ctx_i)` of any context before (`pre`) or of other contexts
+during (`during`) each invocation, with context objects SHARED by any number of invocations
+(`ctx`; possibly cancelled before the invocation that is handed them starts) and code
+objects re-supplied after the host compiled further snippets into them (`same`, `grows`).  `pairs h` lists, for every invocation of `h`, the
 outcome on the reused VM (Impl model of vm/vm.go) and the outcome the Spec demands (the
 same invocation on a fresh VM with the same globals).
 -/
@@ -55,12 +57,37 @@ example : pairs witnessImport =
     (b) has a watcher of an earlier context fire while it runs (unless it cancels its own
     context as well, in which case `context.Canceled` is the right answer anyway). -/
 theorem C07_step_exact (s : St) (k : Nat) (inv : Inv) (g : Good s k) :
-    (invoke s k inv).2 = specOutcome inv s.acc ↔ harms s k inv = false := by
+    (invoke s k inv).2 = specAt s k inv ↔ harms s k inv = false := by
   rw [step_outcome s k inv g]
-  obtain ⟨n1, n2⟩ := spec_ne inv s.acc
+  obtain ⟨n1, n2⟩ := spec_ne inv s.acc (curGen s k inv) (dead s k inv)
+  have n3 := beh_ne_canceled inv.beh inv.v (s.acc + inv.bump) (curGen s k inv)
   unfold harms
-  cases importFails s k inv <;> cases (staleFires s k inv && !ownCancel inv) <;>
-    simp [Ne.symm n1, Ne.symm n2]
+  cases hc : cut s k inv with
+  | true =>
+    have hd : dead s k inv = true := by unfold cut at hc; simp at hc; exact hc.1
+    have hi : importFails s k inv = false := by unfold importFails; rw [hc]; rfl
+    have hs : staleFires s k inv = false := by unfold staleFires; rw [hc]; rfl
+    have hl : lostFires s k inv = false := by
+      unfold lostFires; unfold cut at hc; simp at hc; simp [hc.2]
+    rw [hi, hs, hl]
+    unfold specAt specOutcome
+    rw [hd]; simp
+  | false =>
+    simp only [Bool.false_eq_true, ↓reduceIte]
+    cases hi : importFails s k inv with
+    | true => simp only [↓reduceIte, Bool.true_or]; unfold specAt; simp [Ne.symm n1]
+    | false =>
+      simp only [Bool.false_eq_true, ↓reduceIte, Bool.false_or]
+      cases hl : lostFires s k inv with
+      | true =>
+        have hd : dead s k inv = true := by unfold lostFires at hl; simp at hl; exact hl.1
+        have hsp : specAt s k inv = .errCanceled := by unfold specAt specOutcome; rw [hd]; simp
+        rw [hsp]
+        cases (staleFires s k inv || lostImport s k inv) <;> simp [n3]
+      | false =>
+        simp only [Bool.false_eq_true, ↓reduceIte]
+        unfold specAt at *
+        cases (staleFires s k inv && !ownCancel inv) <;> simp [Ne.symm n2]
 
 /-- the same for a history continued from any `Good` state -/
 theorem pairsFrom_exact (s : St) (k : Nat) (h : List Inv) (g : Good s k) :
@@ -93,17 +120,17 @@ theorem anyFrom_false_of (f g : St → Nat → Inv → Bool)
     | true => rw [hfg s k inv hg] at hf; exact absurd hf.1 (by simp)
 
 theorem harmed_of_guards (h : List Inv) (h1 : staleCancel h = false)
-    (h2 : importAfterReset h = false) : harmed h = false := by
-  unfold harmed staleCancel importAfterReset at *
+    (h2 : importAfterReset h = false) (h3 : lostCancel h = false) : harmed h = false := by
+  unfold harmed staleCancel importAfterReset lostCancel at *
   generalize fresh 0 = s at *
   generalize 0 = k at *
   induction h generalizing s k with
   | nil => rfl
   | cons inv rest ih =>
-    simp only [anyFrom, Bool.or_eq_false_iff] at h1 h2 ⊢
-    refine ⟨?_, ih _ _ h1.2 h2.2⟩
+    simp only [anyFrom, Bool.or_eq_false_iff] at h1 h2 h3 ⊢
+    refine ⟨?_, ih _ _ h1.2 h2.2 h3.2⟩
     unfold harms
-    rw [h1.1, h2.1]; rfl
+    rw [h1.1, h2.1, h3.1]; rfl
 
 /-- **C07_partial (the property under the guards of the two findings).**  For every
     history of ANY length in which no watcher of a finished invocation's context fires
@@ -114,8 +141,8 @@ theorem harmed_of_guards (h : List Inv) (h1 : staleCancel h = false)
     recovered panic, frame overflow, own cancellation) of the earlier invocations, and
     wherever earlier contexts were cancelled BETWEEN invocations. -/
 theorem C07_partial (h : List Inv) (h1 : staleCancel h = false)
-    (h2 : importAfterReset h = false) : ∀ p ∈ pairs h, p.1 = p.2 :=
-  (C07_exact h).2 (harmed_of_guards h h1 h2)
+    (h2 : importAfterReset h = false) (h3 : lostCancel h = false) : ∀ p ∈ pairs h, p.1 = p.2 :=
+  (C07_exact h).2 (harmed_of_guards h h1 h2 h3)
 
 /-- the guards are decidable and true of interesting histories (non-vacuity): six
     invocations of all three kinds ending in every possible way, with contexts of finished
@@ -135,10 +162,13 @@ example : harmed witnessStale = true ∧ harmed witnessImport = true := by decid
 
 /-- **What a harmed invocation returns.**  In every history, an invocation whose outcome
     differs from the Spec returns either "success" carrying the host callback's value (the
-    run was cut short: a missing/wrong value, or a swallowed error/panic) or the import
-    error; nothing else can go wrong in the model. -/
+    run was cut short: a missing/wrong value, or a swallowed error/panic), or the import
+    error, or - when the Spec demands `context.Canceled` because the context was cancelled
+    before the start and the reset wiped the watcher's store - whatever the script does when it
+    is left to run; nothing else can go wrong in the model. -/
 theorem C07_harm_shape (s : St) (k : Nat) (h : List Inv) (g : Good s k) :
-    ∀ p ∈ pairsFrom s k h, p.1 ≠ p.2 → p.1 = .okHook ∨ p.1 = .errImport := by
+    ∀ p ∈ pairsFrom s k h, p.1 ≠ p.2 →
+      p.1 = .okHook ∨ p.1 = .errImport ∨ (p.2 = .errCanceled ∧ p.1 ≠ .errCanceled) := by
   induction h generalizing s k with
   | nil => intro p hp; simp [pairsFrom] at hp
   | cons inv rest ih =>
@@ -148,11 +178,38 @@ theorem C07_harm_shape (s : St) (k : Nat) (h : List Inv) (g : Good s k) :
     · subst hp
       simp only at hne ⊢
       rw [step_outcome s k inv g] at hne ⊢
-      split
-      · exact Or.inr rfl
-      · split
-        · exact Or.inl rfl
-        · rename_i h1 h2; simp [h1, h2] at hne
+      cases hc : cut s k inv with
+      | true =>
+        have hd : dead s k inv = true := by unfold cut at hc; simp at hc; exact hc.1
+        rw [hc] at hne
+        exact absurd (by unfold specAt specOutcome; rw [hd]; simp) hne
+      | false =>
+        rw [hc] at hne
+        simp only [Bool.false_eq_true, ↓reduceIte] at hne ⊢
+        cases hi : importFails s k inv with
+        | true => simp
+        | false =>
+          simp only [Bool.false_eq_true, ↓reduceIte] at hne ⊢
+          rw [hi] at hne
+          simp only [Bool.false_eq_true, ↓reduceIte] at hne
+          cases hl : lostFires s k inv with
+          | true =>
+            have hd : dead s k inv = true := by unfold lostFires at hl; simp at hl; exact hl.1
+            have hsp : specAt s k inv = .errCanceled := by
+              unfold specAt specOutcome; rw [hd]; simp
+            rw [hl] at hne
+            simp only [↓reduceIte] at hne ⊢
+            cases hs : (staleFires s k inv || lostImport s k inv) with
+            | true => rw [hs, hsp] at hne; simp at hne
+            | false =>
+              simp only [Bool.false_eq_true, ↓reduceIte]
+              exact Or.inr (Or.inr ⟨hsp, beh_ne_canceled _ _ _ _⟩)
+          | false =>
+            rw [hl] at hne
+            simp only [Bool.false_eq_true, ↓reduceIte] at hne ⊢
+            cases hs : (staleFires s k inv && !ownCancel inv) with
+            | true => simp
+            | false => rw [hs] at hne; simp at hne
     · exact ih _ _ (step_good s k inv g) p hp hne
 
 /-- **Between invocations** of every history the VM is not running and the frame pointer
@@ -170,27 +227,37 @@ theorem C07_between_invocations (s : St) (k : Nat) (h : List Inv) (g : Good s k)
       have g' := step_good s k inv g
       refine ⟨g'.quiet, g'.fp0, ?_⟩
       rw [step_outcome s k inv g]
-      obtain ⟨_, _⟩ := spec_ne inv s.acc
+      have hb : ∀ a g, behOutcome inv.beh inv.v a g ≠ .errBusy := by
+        intro a g; unfold behOutcome; cases inv.beh <;> simp
       split
       · simp
       · split
         · simp
-        · unfold specOutcome behOutcome
-          split
-          · simp
-          · cases inv.beh <;> simp
+        · split
+          · split
+            · simp
+            · exact hb _ _
+          · split
+            · simp
+            · unfold specAt specOutcome
+              split
+              · simp
+              · exact hb _ _
     · exact ih _ _ (step_good s k inv g) r hr
 
 theorem C07_between_invocations_run (h : List Inv) :
     ∀ r ∈ run h, r.1.running = false ∧ r.1.fp = 0 ∧ r.2 ≠ .errBusy :=
   C07_between_invocations (fresh 0) 0 h (good_fresh 0 0)
 
-/-- **`start` clears what earlier contexts left.**  Cancelling contexts of finished
-    invocations BETWEEN invocations (so that their watchers have fired before the next
-    `start`) is harmless in every history: with no cancellation during a run and no import,
-    every outcome equals the Spec although `halt` may be set when the invocation begins. -/
+/-- **`start` clears what earlier contexts left.**  Cancelling contexts BETWEEN invocations
+    (so that their watchers have fired before the next `start`) is harmless in every history:
+    with no cancellation during a run, no import and no reset that wipes the cancellation of
+    a dead context (`sched ≠ lost`), every outcome equals the Spec although `halt` may be set
+    when the invocation begins - and an invocation whose OWN context is among the cancelled
+    ones returns `context.Canceled`, as the Spec demands. -/
 theorem C07_cancel_between_is_harmless (h : List Inv)
-    (hd : ∀ inv ∈ h, inv.during = [] ∧ inv.imp = false) : ∀ p ∈ pairs h, p.1 = p.2 := by
+    (hd : ∀ inv ∈ h, inv.during = [] ∧ inv.imp = false ∧ inv.sched ≠ .lost) :
+    ∀ p ∈ pairs h, p.1 = p.2 := by
   apply (C07_exact h).2
   unfold harmed
   generalize fresh 0 = s
@@ -201,27 +268,54 @@ theorem C07_cancel_between_is_harmless (h : List Inv)
     simp only [anyFrom, Bool.or_eq_false_iff]
     have hi := hd inv (by simp)
     refine ⟨?_, ih (fun x hx => hd x (by simp [hx])) _ _⟩
+    have hl : lostFires s k inv = false := by
+      unfold lostFires loses
+      cases hs : inv.sched <;> simp_all
     unfold harms staleFires importFails
-    rw [hi.1, hi.2]
-    simp [earlier]
+    rw [hl, hi.1, hi.2.1]
+    simp [others]
 
 /-- `halt` really can be set when such an invocation begins (non-vacuity of the previous
     theorem): here context 0 is cancelled before invocation 1 starts -/
 example : (preState ((run [witnessStale.head!]).head!.1) 1
     { witnessStale.head! with pre := [0] }).halt = true := by decide
 
-/-- **The Spec is the Impl on a fresh VM**: for every invocation, index and value of the
-    host global, running the invocation on a fresh VM (no events concerning other contexts)
-    gives exactly `specOutcome`. -/
-theorem C07_spec_is_fresh_vm (inv : Inv) (k acc : Nat) :
-    freshOutcome inv k acc = specOutcome inv acc := by
+/-- **The Spec is the Impl on a fresh VM**: for every invocation, index, value of the host
+    global, contents of the code object (`g` growth snippets) and state of the context
+    (`d`: already cancelled), running the invocation on a fresh VM (no events concerning other
+    contexts) gives exactly `specOutcome`. -/
+theorem C07_spec_is_fresh_vm (inv : Inv) (k acc g : Nat) (d : Bool) :
+    freshOutcome inv k acc g d =
+      specOutcome inv acc (if inv.kind = .runCode then g else 0) (!inv.bg && d) := by
   unfold freshOutcome
-  have g := good_fresh acc k
-  have h := (C07_step_exact (fresh acc) k { inv with pre := [], during := [] } g).2 (by
-    unfold harms staleFires importFails bodyState prep enter start fresh setup reset earlier cancelAll
-    cases inv.kind <;> cases inv.imp <;> simp)
-  rw [h]
-  rfl
+  generalize hs : freshWorld inv k acc g d = s
+  have gd : Good s k := by subst hs; exact ⟨rfl, rfl, fun _ => rfl⟩
+  have hsc : s.startCount = 0 := by subst hs; rfl
+  have hacc : s.acc = acc := by subst hs; rfl
+  have hev : events s { inv with pre := [], during := [], grows := [] } = s := by
+    subst hs; rfl
+  have hh := (C07_step_exact s k { inv with pre := [], during := [], grows := [] } gd).2 (by
+    have hl : lostFires s k { inv with pre := [], during := [], grows := [] } = false := by
+      unfold lostFires loses; simp [hsc]
+    unfold harms
+    rw [hl]
+    have hm : (bodyState s k { inv with pre := [], during := [], grows := [] }).mods = true := by
+      subst hs
+      unfold bodyState prep preState enter start setup reset
+      rw [hev]
+      unfold freshWorld fresh
+      cases inv.kind <;> simp
+    unfold staleFires importFails
+    rw [hm]
+    simp [others])
+  rw [hh]
+  unfold specAt curGen dead preState genOf
+  rw [hev, hacc]
+  subst hs
+  unfold freshWorld
+  simp only [ctxOf, codeOf]
+  cases d <;> cases hb : inv.bg <;> cases hk : inv.kind <;> cases hbe : inv.beh <;>
+    simp [specOutcome, ownCancel, hb, hbe]
 
 /-- state in which a history leaves the VM -/
 def finalFrom (s : St) (k : Nat) : List Inv → St
@@ -239,11 +333,14 @@ theorem finalFrom_good (s : St) (k : Nat) (h : List Inv) (g : Good s k) :
     exact this
 
 /-- **Independence of the past.**  Take ANY two histories `h₁`, `h₂` (different lengths,
-    kinds, endings, cancellations) that leave the host global with the same value, and run
-    the same invocation after each.  Unless the invocation is harmed in one of them, it
+    kinds, endings, cancellations) that leave the host global with the same value, the
+    invocation's context in the same state (cancelled or not) and the code object it is handed
+    with the same contents, and run the same invocation after each.  Unless the invocation is harmed in one of them, it
     returns the same outcome after both. -/
 theorem C07_independent_of_history (h₁ h₂ : List Inv) (inv : Inv)
     (hacc : (finalFrom (fresh 0) 0 h₁).acc = (finalFrom (fresh 0) 0 h₂).acc)
+    (hdead : dead (finalFrom (fresh 0) 0 h₁) h₁.length inv = dead (finalFrom (fresh 0) 0 h₂) h₂.length inv)
+    (hgen : curGen (finalFrom (fresh 0) 0 h₁) h₁.length inv = curGen (finalFrom (fresh 0) 0 h₂) h₂.length inv)
     (n1 : harms (finalFrom (fresh 0) 0 h₁) h₁.length inv = false)
     (n2 : harms (finalFrom (fresh 0) 0 h₂) h₂.length inv = false) :
     (invoke (finalFrom (fresh 0) 0 h₁) h₁.length inv).2 =
@@ -251,64 +348,109 @@ theorem C07_independent_of_history (h₁ h₂ : List Inv) (inv : Inv)
   have g1 := finalFrom_good (fresh 0) 0 h₁ (good_fresh 0 0)
   have g2 := finalFrom_good (fresh 0) 0 h₂ (good_fresh 0 0)
   rw [Nat.zero_add] at g1 g2
-  rw [(C07_step_exact _ _ inv g1).2 n1, (C07_step_exact _ _ inv g2).2 n2, hacc]
+  rw [(C07_step_exact _ _ inv g1).2 n1, (C07_step_exact _ _ inv g2).2 n2]
+  unfold specAt
+  rw [hacc, hdead, hgen]
 
 /-! ### Re-supplied code objects and the file-module cache -/
 
-/-- forget which code object every invocation re-supplies -/
-def freshCode (inv : Inv) : Inv := { inv with same := none }
+/-- **Re-supplying a code object is invisible.**  From every state a history can leave
+    behind: running a `*compiler.Code` object the VM has seen before (`same := some j`) gives
+    exactly the outcome, and leaves exactly the state (up to which objects `vm.loadedCode`
+    names: `forget`), that a newly compiled code object with the same CURRENT contents gives
+    (`freshCode inv`; `curGen` = how many snippets the object contains beyond its first):
+    `resetForNewCode` forgets `loadedCode`, so the look-up of `RunCode` never finds an older
+    wrapper and no other transition reads `same`.  (The harness re-runs the very same Go
+    object, grown or not, and compares outcome, sp, fp and the stack headroom with this
+    model.) -/
+theorem C07_same_code_irrelevant (s : St) (k : Nat) (inv : Inv) (g : Good s k)
+    (hg : curGen s k (freshCode inv) = curGen s k inv) :
+    (invoke s k (freshCode inv)).2 = (invoke s k inv).2 ∧
+    forget (invoke s k (freshCode inv)).1 = forget (invoke s k inv).1 := by
+  have := invoke_freshCode s s.loaded k inv g g hg
+  exact ⟨this.2, this.1⟩
 
-/-- **Re-supplying a code object is invisible.**  For every state and invocation, running a
-    `*compiler.Code` object the VM has seen before (`same := some j`) leaves exactly the state
-    and outcome that a newly compiled, identical code object leaves: `resetForNewCode` forgets
-    `loadedCode`, so no transition of the model reads `same`.  (The harness re-runs the very
-    same Go object and compares outcome, sp, fp and the stack headroom with this model.) -/
-theorem C07_same_code_irrelevant (s : St) (k : Nat) (inv : Inv) :
-    invoke s k (freshCode inv) = invoke s k inv := rfl
+/-- a code object that never grew has the contents of a newly compiled one -/
+theorem curGen_freshCode_of_no_growth (s : St) (k : Nat) (inv : Inv) (h0 : s.grown = [])
+    (hn : inv.grows = []) : curGen s k (freshCode inv) = curGen s k inv := by
+  have he : (events s inv).grown = [] := by rw [(events_facts s inv).2.2.2.2.2, h0, hn]; rfl
+  unfold curGen genOf preState
+  show (if inv.kind = .runCode then (events s inv).grown.count _ else 0) = _
+  rw [he]; simp
 
-/-- the same for whole histories of any length -/
-theorem C07_same_code_irrelevant_history (s : St) (k : Nat) (h : List Inv) :
-    runFrom s k (h.map freshCode) = runFrom s k h := by
-  induction h generalizing s k with
+/-- the same for whole histories of any length in which no code object grows: outcomes and
+    states (up to the names in the wrapper cache) are those of the history in which every
+    `RunCode` compiles its code anew -/
+theorem C07_same_code_irrelevant_history (s : St) (l : List (Nat × Nat)) (k : Nat) (h : List Inv)
+    (g : Good s k) (g' : Good { s with loaded := l } k) (h0 : s.grown = [])
+    (hn : ∀ inv ∈ h, inv.grows = []) :
+    (runFrom { s with loaded := l } k (h.map freshCode)).map (fun r => (forget r.1, r.2)) =
+    (runFrom s k h).map (fun r => (forget r.1, r.2)) := by
+  induction h generalizing s l k with
   | nil => rfl
   | cons inv rest ih =>
-    simp only [List.map_cons, runFrom, C07_same_code_irrelevant]
-    rw [ih]
+    have hi := hn inv (by simp)
+    have hstep := invoke_freshCode s l k inv g g' (curGen_freshCode_of_no_growth s k inv h0 hi)
+    have hg1 : (invoke s k inv).1.grown = [] := by rw [invoke_grown s k inv g, hi, h0]; rfl
+    have e := eq_of_forget hstep.1.symm
+    have g1 := step_good s k inv g
+    have g1' := step_good _ k (freshCode inv) g'
+    rw [e] at g1'
+    have := ih (invoke s k inv).1 _ (k + 1) g1 g1' hg1 (fun x hx => hn x (by simp [hx]))
+    simp only [List.map_cons, runFrom]
+    rw [hstep.1, hstep.2]
+    rw [e]
+    rw [this]
+
+/-- non-vacuity and necessity of the hypothesis: once the object has grown, re-supplying it
+    is NOT the same as compiling the first snippet anew - the grown object runs its current
+    contents (1 002 003 = 3 + 1000·2 + 1 000 000·1) -/
+example : (pairs [ { kind := .runCode, beh := .normal, depth := 0, pend := 0, v := 2, bump := 1, bg := false, imp := false, pre := [], during := [] },
+                   { kind := .runCode, beh := .normal, depth := 0, pend := 0, v := 3, bump := 1, bg := false, imp := false, pre := [], during := [], same := some 0, grows := [0] } ]).map (·.1)
+    = [.ok 1002, .ok 1002003] := by decide
 
 /-- **A run that ends inside a module's top-level code caches nothing.**  From every state a
     history can leave behind: if invocation `k` ends (runtime error, recovered panic, frame
     overflow, cancellation of its own context) while the top-level code of the imported file
-    module is executing, the module is NOT in the VM's import cache afterwards, the outcome is
+    module is executing (and its context was live when it started), the module is NOT in the
+    VM's import cache afterwards, the outcome is
     the one the Spec demands, and the module cache has the size it had when the body started. -/
 theorem C07_aborted_import_caches_nothing (s : St) (k : Nat) (inv : Inv) (g : Good s k)
+    (hd : dead s k inv = false)
     (hi : importFails s k inv = false) (hm : modEnds (bodyState s k inv) inv = true) :
-    (invoke s k inv).1.fmod = false ∧ (invoke s k inv).2 = specOutcome inv s.acc ∧
+    (invoke s k inv).1.fmod = false ∧ (invoke s k inv).2 = specAt s k inv ∧
     modCount (invoke s k inv).1 = modCount (bodyState s k inv) := by
+  have hc : cut s k inv = false := by unfold cut; rw [hd]; rfl
+  have he : eff s k inv = inv := by unfold eff; simp [hd]
+  have hl : lostFires s k inv = false := by unfold lostFires; rw [hd]; rfl
   have hnot : ¬(inv.imp = true ∧ (bodyState s k inv).mods = false) := by
-    intro h; unfold importFails at hi; simp [h.1, h.2] at hi
-  have hcore : core (bodyState s k inv) k inv = modEnd (bodyState s k inv) k inv := by
-    unfold core; simp only [hnot, hm, ↓reduceIte]
+    intro h; unfold importFails at hi; simp [h.1, h.2, hc] at hi
+  have hgone : (bodyState s k inv).gone = false := by rw [dead_eq s k inv g, hd]
+  have hcore : core (bodyState s k inv) (ctxOf k inv) (eff s k inv)
+      = modEnd (bodyState s k inv) (ctxOf k inv) inv := by
+    rw [he]; unfold core; simp only [hnot, hm, hgone, Bool.false_eq_true, false_and, ↓reduceIte]
   have hf : (bodyState s k inv).fmod = false := by
     unfold modEnds modRuns at hm
     cases h : (bodyState s k inv).fmod <;> simp_all
-  have hs : staleFires s k inv = false := by unfold staleFires; rw [hm]; simp
+  have hs : staleFires s k inv = false := by unfold staleFires; rw [he, hm]; simp
   refine ⟨?_, ?_, ?_⟩
-  · rw [invoke_eq s k inv g, hcore]
-    show (modEnd (bodyState s k inv) k inv).1.fmod = false
+  · rw [invoke_body s k inv g hc, hcore]
+    show (modEnd (bodyState s k inv) (ctxOf k inv) inv).1.fmod = false
     unfold modEnd
     simp only
     cases ownCancel inv
     · exact hf
     · simp only [↓reduceIte]
-      rw [(cancel_sameCore' (bodyState s k inv) k).1]; exact hf
-  · rw [step_outcome s k inv g, hi, hs]; rfl
-  · rw [invoke_eq s k inv g, hcore]
+      rw [(cancel_sameCore' (bodyState s k inv) (ctxOf k inv)).1]; exact hf
+  · rw [step_outcome s k inv g, hc, hi, hs, hl]; rfl
+  · rw [invoke_body s k inv g hc, hcore]
     unfold modCount modEnd
     simp only
     cases ownCancel inv
     · rfl
     · simp only [↓reduceIte]
-      rw [(cancel_sameCore' (bodyState s k inv) k).1, (cancel_sameCore' (bodyState s k inv) k).2]
+      rw [(cancel_sameCore' (bodyState s k inv) (ctxOf k inv)).1,
+        (cancel_sameCore' (bodyState s k inv) (ctxOf k inv)).2]
 
 /-- **The module cache never decides an outcome.**  Whether the file module is cached
     (`fmod`) when an invocation starts changes where a run can end, not what it returns: from
@@ -318,8 +460,13 @@ theorem C07_aborted_import_caches_nothing (s : St) (k : Nat) (inv : Inv) (g : Go
 theorem C07_module_cache_irrelevant (s : St) (k : Nat) (inv : Inv) (b : Bool) (g : Good s k)
     (n1 : harms s k inv = false) (n2 : harms { s with fmod := b } k inv = false) :
     (invoke { s with fmod := b } k inv).2 = (invoke s k inv).2 := by
-  have g' : Good { s with fmod := b } k := ⟨g.quiet, g.fp0, g.early⟩
+  have g' : Good { s with fmod := b } k := ⟨g.quiet, g.fp0, g.cold⟩
   rw [(C07_step_exact _ _ inv g).2 n1, (C07_step_exact _ _ inv g').2 n2]
+  have he : events { s with fmod := b } inv = { events s inv with fmod := b } := by
+    unfold events
+    exact cancelAll_fmod { s with grown := inv.grows ++ s.grown } inv.pre b
+  unfold specAt curGen dead preState genOf
+  rw [he]
 
 /-- non-vacuity: seven invocations on one VM that import the file module; three of them end
     inside the module's top-level code (error, own cancellation, panic), later ones import it
@@ -340,14 +487,173 @@ example : (pairs sampleModule).map (·.1) =
 example : (run sampleModule).map (·.1.fmod) = [false, false, false, true, true, true, false] := by decide
 example : modEnds (bodyState (fresh 0) 0 sampleModule.head!) sampleModule.head! = true := by decide
 
+/-! ### Shared contexts, already cancelled contexts, growing code objects -/
+
+/-- **An already cancelled context stops the run, whatever happened before.**  From every
+    state a history can leave behind - whichever earlier invocations were handed the same
+    context object, however they ended, whether the context was cancelled during one of them,
+    while the VM was idle, or before it was ever used -: an invocation (Run, RunCode or Call)
+    that is handed a context which is already cancelled when it starts returns
+    `context.Canceled`.  `start` clears `halt` but arms a NEW watcher for every invocation, and
+    a watcher armed for a cancelled context fires at once.  The one exception is the recorded
+    race of `RunCode` on a used VM (`loses`: `resetForNewCode` runs after `start` and may wipe
+    the watcher's store). -/
+theorem cancelled_ctx_stops_every_later_run (s : St) (k : Nat) (inv : Inv) (g : Good s k)
+    (hd : dead s k inv = true) (hl : loses s k inv = false) :
+    (invoke s k inv).2 = .errCanceled := by
+  rw [step_outcome s k inv g]
+  have : cut s k inv = true := by unfold cut; rw [hd, hl]; rfl
+  rw [this]; rfl
+
+/-- ... and nothing of the script is executed beyond its first instruction: the host global
+    is untouched, the leaf is not reached, the frame pointer is at the base -/
+theorem cancelled_ctx_run_does_nothing (s : St) (k : Nat) (inv : Inv) (g : Good s k)
+    (hd : dead s k inv = true) (hl : loses s k inv = false) :
+    (invoke s k inv).1.acc = s.acc ∧ leafReached s k inv = false ∧ (invoke s k inv).1.fp = 0 ∧
+    (invoke s k inv).1.halt = true := by
+  have hc : cut s k inv = true := by unfold cut; rw [hd, hl]; rfl
+  obtain ⟨_, b2, b3, _⟩ := bodyState_facts s k inv g
+  rw [invoke_eq s k inv g, hc]
+  refine ⟨b2, ?_, b3, rfl⟩
+  unfold leafReached; rw [hc]; rfl
+
+/-- Run and Call never lose the cancellation, nor does the first start of a VM -/
+theorem cancelled_ctx_stops_run_and_call (s : St) (k : Nat) (inv : Inv) (g : Good s k)
+    (hd : dead s k inv = true) (hk : inv.kind ≠ .runCode ∨ s.startCount = 0) :
+    (invoke s k inv).2 = .errCanceled := by
+  apply cancelled_ctx_stops_every_later_run s k inv g hd
+  unfold loses
+  rcases hk with hk | hk
+  · cases h : inv.kind <;> simp_all
+  · simp [hk]
+
+/-- the same for whole histories: in every history of any length in which the reset race does
+    not strike (`lostFires` nowhere), EVERY invocation that is handed an already cancelled
+    context returns `context.Canceled` -/
+theorem cancelled_ctx_stops_every_later_run_history (s : St) (k : Nat) (h : List Inv)
+    (g : Good s k) (hl : anyFrom lostFires s k h = false) :
+    ∀ o ∈ deadOutcomesFrom s k h, o = .errCanceled := by
+  induction h generalizing s k with
+  | nil => intro o ho; simp [deadOutcomesFrom] at ho
+  | cons inv rest ih =>
+    simp only [anyFrom, Bool.or_eq_false_iff] at hl
+    intro o ho
+    simp only [deadOutcomesFrom, List.mem_append] at ho
+    rcases ho with ho | ho
+    · cases hd : dead s k inv with
+      | false => rw [hd] at ho; simp at ho
+      | true =>
+        rw [hd] at ho
+        simp only [↓reduceIte, List.mem_singleton] at ho
+        have hls : loses s k inv = false := by
+          have := hl.1; unfold lostFires at this; rw [hd] at this; simpa using this
+        rw [ho]
+        exact cancelled_ctx_stops_every_later_run s k inv g hd hls
+    · exact ih _ _ (step_good s k inv g) hl.2 o ho
+
+/-- Counterexample 3 (the reset of `RunCode` wipes the cancellation): context 7 is cancelled
+    before it is ever used; the first RunCode that is handed it returns `context.Canceled`,
+    a second one - in the schedule in which the watcher stores `halt` before
+    `resetForNewCode` clears it - runs to the end and returns 1003. -/
+def witnessLost : List Inv :=
+  [ { kind := .runCode, beh := .normal, depth := 0, pend := 0, v := 2, bump := 1, bg := false,
+      imp := false, pre := [7], during := [], ctx := some 7 },
+    { kind := .runCode, beh := .normal, depth := 0, pend := 0, v := 3, bump := 1, bg := false,
+      imp := false, pre := [], during := [], ctx := some 7, sched := .lost } ]
+
+theorem C07_counterexample_reset_loses_cancellation : ¬ C07_full := by
+  intro h
+  have := h witnessLost (.ok 1003, .errCanceled) (by decide)
+  exact absurd this (by decide)
+
+example : pairs witnessLost = [(.errCanceled, .errCanceled), (.ok 1003, .errCanceled)] := by decide
+example : lostCancel witnessLost = true ∧ staleCancel witnessLost = false := by decide
+
+/-- **`RunCode` executes the code object's CURRENT contents.**  From every state a history
+    can leave behind, whatever the VM ran before - the same code object when it was shorter,
+    other code objects, Run, Call -: the snapshot that `RunCode` executes contains exactly
+    the snippets the code object contains when the invocation starts.  (`resetForNewCode`
+    empties `vm.loadedCode`, and a VM that was never started has wrapped nothing: the look-up
+    never finds a wrapper made before the object grew.) -/
+theorem run_uses_current_code (s : St) (k : Nat) (inv : Inv) (g : Good s k) :
+    (bodyState s k inv).cur = curGen s k inv :=
+  (bodyState_facts s k inv g).2.2.2.2.2.1
+
+/-- the same for whole histories of any length: every `RunCode` of every history executes
+    the generation its code object has at that moment -/
+theorem run_uses_current_code_history (s : St) (k : Nat) (h : List Inv) (g : Good s k) :
+    ∀ p ∈ gensFrom s k h, p.1 = p.2 := by
+  induction h generalizing s k with
+  | nil => intro p hp; simp [gensFrom] at hp
+  | cons inv rest ih =>
+    intro p hp
+    simp only [gensFrom, List.mem_append] at hp
+    rcases hp with hp | hp
+    · split at hp
+      · simp only [List.mem_singleton] at hp
+        rw [hp]; exact run_uses_current_code s k inv g
+      · simp at hp
+    · exact ih _ _ (step_good s k inv g) p hp
+
+/-- ... hence a successful `RunCode` of a grown code object returns the value of its LAST
+    snippet: with a live context, no import and no cancellation during the run, the outcome of
+    a normally ending RunCode is `v + 1000·len(acc) + 1 000 000·(current generation)` -/
+theorem run_uses_current_code_outcome (s : St) (k : Nat) (inv : Inv) (g : Good s k)
+    (hk : inv.kind = .runCode) (hb : inv.beh = .normal) (hd : dead s k inv = false)
+    (hi : inv.imp = false) (hdu : inv.during = []) :
+    (invoke s k inv).2 =
+      .ok (inv.v + 1000 * (s.acc + inv.bump) + 1000000 * genOf (preState s k inv) (codeOf k inv)) := by
+  have hh : harms s k inv = false := by
+    have hl : lostFires s k inv = false := by unfold lostFires; rw [hd]; rfl
+    unfold harms staleFires importFails
+    rw [hl, hi, hdu]; simp [others]
+  rw [(C07_step_exact s k inv g).2 hh]
+  unfold specAt specOutcome curGen ownCancel behOutcome
+  rw [hd, hb, if_pos hk]; simp
+
+/-- why the wrapper cache must be forgotten (what a VM that kept its wrappers across resets
+    would do): from a state that is NOT one a history of the unchanged code can leave behind -
+    never started, yet holding a wrapper of code object 0 made when it had no growth snippet -
+    `RunCode` of the grown object executes the OLD snapshot -/
+example :
+    let s : St := { loaded := [(0, 0)], grown := [0] }
+    let inv : Inv := { kind := .runCode, beh := .normal, depth := 0, pend := 0, v := 3, bump := 0,
+                       bg := false, imp := false, pre := [], during := [], same := some 0 }
+    (bodyState s 1 inv).cur = 0 ∧ curGen s 1 inv = 1 ∧ (invoke s 1 inv).2 = .ok 3 ∧
+    specAt s 1 inv = .ok 1000003 := by decide
+
+/-- non-vacuity: eight invocations on one VM that share two context objects (50 and 60) and one
+    growing code object (0).  Context 50 is used by three invocations and cancelled in the
+    middle of the second; context 60 is cancelled before it is ever used; the code object of
+    invocation 0 grows twice and is run again after each growth, with Run and Call in
+    between.  No guard is violated and every outcome is the Spec's. -/
+def sampleShared : List Inv :=
+  [ { kind := .runCode, beh := .normal, depth := 1, pend := 1, v := 5, bump := 1, bg := false, imp := false, pre := [], during := [], ctx := some 50 },
+    { kind := .call, beh := .selfCancel, depth := 2, pend := 0, v := 6, bump := 1, bg := false, imp := false, pre := [], during := [], ctx := some 50 },
+    { kind := .runCode, beh := .normal, depth := 0, pend := 1, v := 7, bump := 1, bg := false, imp := false, pre := [], during := [], same := some 0, grows := [0] },
+    { kind := .run, beh := .normal, depth := 3, pend := 2, v := 8, bump := 1, bg := false, imp := false, pre := [], during := [], ctx := some 50, sched := .early },
+    { kind := .call, beh := .err, depth := 0, pend := 0, v := 9, bump := 1, bg := false, imp := false, pre := [60], during := [], ctx := some 60 },
+    { kind := .runCode, beh := .normal, depth := 0, pend := 1, v := 10, bump := 0, bg := false, imp := false, pre := [], during := [50, 60], same := some 0, grows := [0], fimp := true },
+    { kind := .runCode, beh := .panic, depth := 0, pend := 0, v := 11, bump := 0, bg := false, imp := false, pre := [], during := [], ctx := some 60 },
+    { kind := .runCode, beh := .normal, depth := 0, pend := 0, v := 12, bump := 0, bg := true, imp := false, pre := [], during := [], ctx := some 60 } ]
+
+example : harmed sampleShared = false ∧ staleCancel sampleShared = false ∧
+    lostCancel sampleShared = false := by decide
+example : (pairs sampleShared).map (·.1) =
+    [.ok 1005, .errCanceled, .ok 1003007, .errCanceled, .errCanceled, .ok 2003010, .errCanceled,
+     .ok 3012] := by decide
+example : gensFrom (fresh 0) 0 sampleShared = [(0, 0), (1, 1), (2, 2), (0, 0), (0, 0)] := by decide
+example : deadOutcomesFrom (fresh 0) 0 sampleShared = [.errCanceled, .errCanceled, .errCanceled] := by
+  decide
+
 /-! ### Depth -/
 
-theorem frameStep_leafSig (halt own : Bool) (b : Beh) (v acc : Nat) :
-    frameStep halt own (leafSig halt own b v acc) = leafSig halt own b v acc := by
+theorem frameStep_leafSig (halt own : Bool) (b : Beh) (v acc g : Nat) :
+    frameStep halt own (leafSig halt own b v acc g) = leafSig halt own b v acc g := by
   cases halt <;> cases own <;> cases b <;> rfl
 
-theorem unwind_leafSig (halt own : Bool) (b : Beh) (v acc : Nat) (d : Nat) :
-    unwind halt own d (leafSig halt own b v acc) = leafSig halt own b v acc := by
+theorem unwind_leafSig (halt own : Bool) (b : Beh) (v acc g : Nat) (d : Nat) :
+    unwind halt own d (leafSig halt own b v acc g) = leafSig halt own b v acc g := by
   induction d with
   | zero => rfl
   | succ n ih => rw [unwind, frameStep_leafSig, ih]
@@ -359,10 +665,11 @@ theorem unwind_leafSig (halt own : Bool) (b : Beh) (v acc : Nat) (d : Nat) :
     and a run cut short by a stale watcher is cut short at EVERY level and returns
     "success" with the host callback's value. -/
 theorem C07_depth_irrelevant (s : St) (k : Nat) (inv : Inv) (d : Nat) :
-    sigOutcome (unwind s.halt (s.cancelled.contains k) d
-      (leafSig s.halt (s.cancelled.contains k) inv.beh inv.v s.acc)) = leafOutcome s k inv := by
+    sigOutcome (unwind s.halt (s.gone || (!inv.bg && s.cancelled.contains k)) d
+      (leafSig s.halt (s.gone || (!inv.bg && s.cancelled.contains k)) inv.beh inv.v s.acc s.cur))
+      = leafOutcome s k inv := by
   rw [unwind_leafSig]
   unfold leafOutcome leafSig behOutcome
-  cases s.halt <;> cases s.cancelled.contains k <;> cases inv.beh <;> rfl
+  cases s.halt <;> cases (s.gone || (!inv.bg && s.cancelled.contains k)) <;> cases inv.beh <;> rfl
 
 end Risor.C07
